@@ -912,6 +912,51 @@ Example C01_volchain_example :
   end.
 Proof. cbv zeta. split; [exact ex_sub_premises|]. vm_compute. repeat split. Qed.
 
+(* ================================================================ remove of a file that owns clusters, on whole images
+   (Model/VolRemove.v vol_remove_file_root: lookup ; free_cluster_chain on the FAT slice ; deletion loop - Props/C05.v has the
+   full statement C05_vol_remove_reclaims_all).  The TREE part: on a well-formed FAT12/16 volume remove(name) of a file the
+   library's lookup resolves [name] to (not stored under a dot short name) succeeds, the decoded root loses exactly that file's
+   node - whatever chain and content it had - and every other node is there exactly as decoded before, in order; no decode
+   issue; labels, geometry, status byte as before; outside the FAT copies and the entry's own root slots no byte changes. *)
+From FatVerif Require Import Model.Table Model.Fat Model.VolFile Model.VolRemove Proofs.TableProofs Proofs.VolFileProofs
+  Proofs.VolRemoveProofs Proofs.VolRemoveExamples Proofs.VolSessionExamples.
+Theorem C01_vol_remove_file_decodes : forall upper oem fold im fi name ev,
+  let g := parse_geom im in
+  fixed_root_geom g -> FatProofs.bytes_ok im ->
+  fi_inv fstore (val_ft (ft_of g)) (store_of g im) fi (g_clusters g) ->
+  Wf.wf_issues fold im = [] -> Forall attrs_sane (root_region_slots g im) ->
+  root_lookup upper oem im name = Ok ev -> Lfn.ev_is_dir ev = false ->
+  list_eqb (Lfn.ev_raw_name ev) DOT || list_eqb (Lfn.ev_raw_name ev) DOTDOT = false ->
+  exists im' fi' ns1 e chain content ns2,
+    vol_remove_file_root upper oem im fi name = Some (Ok tt, im', fi') /\
+    v_root (abs im) = ns1 ++ NFile e chain content :: ns2 /\ v_root (abs im') = ns1 ++ ns2 /\
+    matches upper oem name ev = true /\ e_sfn e = Lfn.ev_raw_name ev /\ e_cluster e = Lfn.ev_cluster_lo ev /\
+    e_size e = Lfn.ev_size ev /\
+    v_root_issues (abs im') = [] /\ v_labels (abs im') = v_labels (abs im) /\ v_geom (abs im') = v_geom (abs im) /\
+    v_root_chain (abs im') = v_root_chain (abs im) /\ v_status (abs im') = v_status (abs im) /\
+    (forall a, ~ in_store_area g a -> (a < g_root_off g \/ g_root_off g + root_bytes g <= a) -> img_get im' a = img_get im a) /\
+    (forall i, (N.of_nat i < e_first_slot e \/ e_sfn_slot e < N.of_nat i) ->
+       nth i (root_region_slots g im') [] = nth i (root_region_slots g im) []).
+Proof. exact vol_remove_file_tree. Qed.
+
+(* a remove that does not succeed (the lookup fails: NotFound, ...) hands the image back: nothing at all changes *)
+Theorem C01_vol_remove_file_failed_unchanged : forall upper oem im fi name r im' fi',
+  vol_remove_file_root upper oem im fi name = Some (r, im', fi') -> r <> Ok tt ->
+  im' = im /\ fi' = fi /\ (forall ev, root_lookup upper oem im name <> Ok ev) /\
+  match r with Err e => root_lookup upper oem im name = Err e | Panic => root_lookup upper oem im name = Panic
+             | OutOfFuel => root_lookup upper oem im name = OutOfFuel | Ok _ => False end.
+Proof. exact vol_remove_file_failed_unchanged. Qed.
+
+(* non-vacuity: Props/C05.v C05_vol_remove_example_hyps / C05_vol_remove_example (the 64-sector image after a session) *)
+Example C01_vol_remove_file_example :
+  (exists ev, root_lookup ex_U ex_O ex_rm_im ex_sname = Ok ev /\ Lfn.ev_is_dir ev = false) /\
+  match vol_remove_file_root ex_U ex_O ex_rm_im ex_rm_fi ex_sname with
+  | Some (Ok _, im', _) => (exists e, v_root (abs ex_rm_im) = [NFile e (Some [2; 3]) (repeat 7 509 ++ [1; 2; 3; 4; 5; 6])]) /\
+                           v_root (abs im') = []
+  | _ => False
+  end.
+Proof. split; [eexists; split; [vm_compute; reflexivity|reflexivity]|]. vm_compute. split; [eexists; reflexivity|reflexivity]. Qed.
+
 Print Assumptions C01_image_write_frame.
 Print Assumptions C01_find_free_entries_spec.
 Print Assumptions C01_failed_write_unchanged_partial.
@@ -954,3 +999,5 @@ Print Assumptions C01_volchain_remove_decodes.
 Print Assumptions C01_volchain_rename_decodes.
 Print Assumptions C01_volchain_other_entries_unchanged.
 Print Assumptions C01_volchain_create_in_root_decodes_partial.
+Print Assumptions C01_vol_remove_file_decodes.
+Print Assumptions C01_vol_remove_file_failed_unchanged.
